@@ -499,7 +499,9 @@ MANIFEST = {
         "recon_check and of the executable iterate-until-stable definition, both of which are evaluated on the "
         "implementation's own output for every generated case; and a line-level executable Gallina model of "
         "grey_reconstruction (padding, strides, lexsort, linked list, rank_order) and of grey_reconstruction_loop "
-        "(exact unlink/relink, checked array accesses) tied to the code by exact equality of complete outputs."),
+        "(exact unlink/relink, checked array accesses) tied to the code by exact equality of complete outputs; for that "
+        "loop model, index safety and 'link has a successor' (no array access outside [0,2S), no node ever dropped) "
+        "are proved for every state satisfying a verified, per-instance-checked invariant."),
     "level_note": (
         "Trusted: Coq kernel + vm_compute; extraction (ExtrOcamlBasic only) and the S-expression driver; the Python "
         "harness incl. the order-preserving integer coding of float inputs; NumPy sort semantics as modelled. The tie "
